@@ -71,4 +71,15 @@ theorem gen_fallback_eq_model (d : Int) (s : Setting) :
     cases hs : s.set <;> simp [Otel.Gen.C17.fallback] <;> (repeat' split) <;> simp_all
   · intro b; cases b <;> rfl
 
+/-- the inline attribute capacity of a record (`attributesInlineCount`, sdk/log/record.go) is the `5` of the model's
+`addAttrs`: five attributes fill `front` exactly and the sixth is the first to go to `back` -/
+theorem gen_inline_count_eq_model :
+    Otel.Gen.C17.attributesInlineCount = 5 ∧
+    ∀ a : KV, (addAttrs (Rec.new 128 (-1)) (List.replicate (Otel.Gen.C17.attributesInlineCount.toNat + 1) a)).front.length =
+        Otel.Gen.C17.attributesInlineCount.toNat ∧
+      (addAttrs (Rec.new 128 (-1)) (List.replicate (Otel.Gen.C17.attributesInlineCount.toNat + 1) a)).back.length = 1 := by
+  refine ⟨by decide, ?_⟩
+  intro a
+  simp [addAttrs, applyAll, Rec.new, Otel.Gen.C17.attributesInlineCount, List.replicate]
+
 end Otel.C17.GenTie
